@@ -386,9 +386,9 @@ def run_verify(env, case):
 
 
 TESTS = [
-    Test("sign", sign_case, run_sign, quick=4000, thorough=150000, cfgs=ALL,
+    Test("sign", sign_case, run_sign, quick=4000, thorough=60000, cfgs=ALL,
          must_cover=["msg>=n", "key_invalid", "src:fail", "retried", "s0_retry", "sign_ok", "sign_fail"]),
-    Test("verify", verify_case, run_verify, quick=6000, thorough=250000, cfgs=ALL,
+    Test("verify", verify_case, run_verify, quick=6000, thorough=100000, cfgs=ALL,
          must_cover=["Rx>=n:accept", "s=half:accept", "s=half+1:reject", "msg>=n", "rec2_ok", "rec2_fail_range", "high_twin", "accept", "reject",
                      "msg+n", "high_s_equation_holds", "out_of_range"]),
 ]
